@@ -127,10 +127,15 @@ func main() {
 		}
 		return
 	}
-	if name == "sim-random" || name == "sim-adversary" {
+	if name == "sim-random" || name == "sim-adversary" || name == "sim-pause" || name == "sim-timeouts" {
 		feat := sim.AllFeatures
-		if name == "sim-adversary" {
+		switch name {
+		case "sim-adversary":
 			feat.Stale, feat.Adversary, feat.Handles, feat.TwoTimeouts = true, true, true, true
+		case "sim-pause": // error counting: counts configured almost everywhere, the same error over and over, no re-entrancy
+			feat.ForcePause, feat.ErrBias, feat.BadOutcomes, feat.Nested, feat.TimeoutHeavy, feat.Faults = true, 700, 450, false, true, 40
+		case "sim-timeouts": // timers: mostly timeout statuses, clock moved around expiry, no re-entrancy
+			feat.TimeoutHeavy, feat.Nested, feat.BadOutcomes = true, false, 200
 		}
 		res := report.New(name, *seed, *tier)
 		n := 500
